@@ -132,12 +132,27 @@ pub struct Cfg {
     pub level: u8,
     pub strat: usize,
     pub wbits: u8,
-    /// "params" = with_params, "flags" = new(create_comp_flags_from_zip_params)
+    /// "params" = with_params, "flags" = new(create_comp_flags_from_zip_params),
+    /// "params_reused" = with_params, then a first stream is compressed and the object reset()
     pub api: &'static str,
 }
 
 impl Cfg {
     pub fn make(&self) -> CompressorOxide {
+        if self.api == "params_reused" {
+            // the configuration must survive a complete earlier stream and reset()
+            let mut c = CompressorOxide::with_params(
+                if self.zlib { DataFormat::Zlib } else { DataFormat::Raw },
+                self.level,
+                STRATS[self.strat].1,
+                self.wbits,
+            );
+            let junk: Vec<u8> = (0..9000u32).map(|i| (i.wrapping_mul(2654435761) >> 13) as u8).collect();
+            let mut out = vec![0u8; 20000];
+            let _ = compress(&mut c, &junk, &mut out, TDEFLFlush::Finish);
+            c.reset();
+            return c;
+        }
         if self.api == "params" {
             CompressorOxide::with_params(
                 if self.zlib { DataFormat::Zlib } else { DataFormat::Raw },
@@ -155,8 +170,8 @@ impl Cfg {
         }
     }
     pub fn json(&self, c: &CompressorOxide) -> Value {
-        json!({"api": self.api, "level": self.level, "strategy": STRATS[self.strat].2, "zlib": self.zlib,
-               "wbits": if self.api == "params" { self.wbits } else { 15 }, "flags": c.flags()})
+        json!({"api": if self.api == "params_reused" { "params" } else { self.api }, "level": self.level, "strategy": STRATS[self.strat].2, "zlib": self.zlib,
+               "wbits": if self.api != "flags" { self.wbits } else { 15 }, "flags": c.flags(), "reused": self.api == "params_reused"})
     }
 }
 
